@@ -6,7 +6,7 @@ OBJS = [{"id": "7", "class": "user"}, {"id": "a<b\"c"}, {"class": "k&l"}]
 
 
 class Rec:
-    __slots__ = ("fkey", "file", "tname", "env", "status", "writes", "ideal", "inband", "raw", "got")
+    __slots__ = ("fkey", "file", "tname", "env", "status", "writes", "ideal", "inband", "raw", "got", "f38", "built", "built_inband", "built_raw")
 
 
 def make_batch(files, race=False):
@@ -18,13 +18,15 @@ def make_batch(files, race=False):
     return b
 
 
-def run_envs(b, files, envs_for, mode="buf", objs=OBJS):
-    """render every template of every built file for the environments envs_for(file, template)"""
+def run_envs(b, files, envs_for, mode="buf", objs=OBJS, as_built=False):
+    """render every template of every built file for the environments envs_for(file, template).
+    as_built: compare with the document as the code builds it today with respect to known finding F38 (for the checks whose
+    property is not about attribute text; the finding is recorded under C01 and C02)"""
     cases = []
     for k, f in files.items():
         if k in b.rejected or k in b.build_errors:
             continue
-        d = gen_tmpl.Denote(f, objs)
+        d = (gen_tmpl.Denote(f, objs), gen_tmpl.Denote(f, objs, attr_space=False))
         for t in f["templates"]:
             for env in envs_for(f, t):
                 cases.append((k, f, t["name"], env, d))
@@ -36,7 +38,13 @@ def run_envs(b, files, envs_for, mode="buf", objs=OBJS):
         rec.fkey, rec.file, rec.tname, rec.env = k, f, n, env
         rec.status, rec.writes = render.parse_render(r)
         rec.got = b"".join(rec.writes)
-        rec.raw = d.raw(n, env)
+        rec.raw = d[0].raw(n, env)
+        rec.built_raw = d[1].raw(n, env)
+        rec.f38 = rec.raw != rec.built_raw
+        rec.built = gen_tmpl.ideal_nuke(rec.built_raw).encode("utf-8")
+        rec.built_inband = gen_tmpl.inband_nuke(rec.built_raw).encode("utf-8")
+        if as_built:
+            rec.raw = rec.built_raw
         rec.ideal = gen_tmpl.ideal_nuke(rec.raw).encode("utf-8")
         rec.inband = gen_tmpl.inband_nuke(rec.raw).encode("utf-8")
         out.append(rec)
@@ -65,6 +73,24 @@ def lookalike_known(chk, rec):
                 chk.known_seen.append(k)
         chk.count("known-F04-lookalike")
         return True
+    return False
+
+
+def attrs_blank_known(chk, rec):
+    """known finding F38: the only difference from the denotation is the missing blank before a non-empty @attributes list"""
+    if rec.status == "ok" and rec.f38 and rec.got != rec.ideal and (
+            rec.got == rec.built or (rec.got == rec.built_inband and gen_tmpl.lookalike_formed(rec.built_raw))):
+        listed = False
+        for k in common.load_known():
+            if k["property"] == chk.pid and k["id"] == "F38" and k["status"] == "open":
+                listed = True
+                if k not in chk.known_seen:
+                    chk.known_seen.append(k)
+        if listed:
+            chk.count("known-F38-attributes-blank")
+            if rec.got != rec.built:
+                chk.count("known-F04-lookalike")
+            return True
     return False
 
 
